@@ -14,7 +14,8 @@ Known defects of the pinned tree whose triggers the generator avoids (witnesses 
 corpus/C20/finding_*.json are replayed on every run):
   (D30 oneline_doc, set_doc on a one-line body without docstring, is repaired in /repo and generated again)
   D31 doc_quote       documentation ending in '"', containing '\"\"\"' or a backslash (trigger: not safe_doc(d))
-  D32 splitlines_ff   form feed etc. inside the text                         (trigger: any of \\r \\v \\f \\x1c-\\x1e \\x85 \\u2028 \\u2029)
+  (D32 splitlines_ff, form feed etc. inside string literals, is repaired in /repo and generated again; CR is not generated:
+   it is a line boundary for the tokenizer too and the model knows LF only)
   D33 dedent_literal  multi-line string literal in an indented definition / with blank-only lines (trigger: such a literal)
   D10 defcells_flags  @defcells(space=, is_cached=) on an existing cells     (trigger: never generated)
 """
@@ -31,7 +32,7 @@ ASSUMPTIONS = ["texts are compared as UTF-8 bytes (the harness converts the char
                "theorems quantify over well-formed structured texts (Capture/Texts.v wf_ftext / wf_ltext / safe_doc)"]
 
 CORPUS = os.path.join(fw.VERIF, "corpus", "C20")
-D32_CHARS = "\r\x0b\x0c\x1c\x1d\x1e\x85\u2028\u2029"
+D32_CHARS = "\r"     # D32 is repaired in /repo: only CR (a line boundary of the tokenizer too; the model knows LF only) stays out
 
 
 # ---- Coq emission ---------------------------------------------------------------
@@ -632,7 +633,7 @@ def run(tier, seed, rng):
     out.notes = [
         "the Python tokenizer / compiler are outside the theorems: token positions are inputs of the model; the harness compares the "
         "positions asttokens reports with the ones the structured text has by construction; behaviour (values) rests on (P)",
-        "generator avoids the triggers of D31 (unsafe doc), D32 (CR/FF/... in text), "
+        "generator avoids the triggers of D31 (unsafe doc), CR in the text, "
         "D33 (multi-line literal in an indented text), D10 (decorator with is_cached on an existing cells); filtered counts in distribution.filtered",
         "non-ASCII characters occur in comments and string literals only; function bodies evaluate to ints so that values can be compared by repr",
         "about a quarter of the def texts hold a nested decorated definition (decorator defined earlier in the body, @property on an inner "
